@@ -154,11 +154,11 @@ HC_NOTE = ("Host calls are invoked through the real omega tables (AccumulateOmeg
            "Registers after a PANIC exit are not judged (U6). Parameters: tiny.")
 
 check("C07", "PVM",
-      rule="case = one generated accumulation/refinement context (caller + 0..3 accounts with storage, preimages, lookups - some only in the raw pool -, privileges, queues; guest memory of 4 RW pages + 1 RO page) driven through 1..40 host calls (all 28 identifiers incl. log, arguments biased to the edges of the mapped ranges, lengths {0, small, 2^32, random 64-bit}, own/other/absent/2^64-1 service ids); after EVERY call the frame table is evaluated on pre/post snapshots of registers, gas, every guest page, the logical projection of X and Y and the inner-machine table: "
-           "only ω7 (+ω8 for query/invoke, none for log) may change; gas -10 (transfer -10-l); unreadable required input => PANIC; PANIC or error code => memory and context unchanged; memory changes only inside the destination range; Y changes only at checkpoint. Plus `ecalli id` programs for identifiers absent from the real table (27..99, 101..255, >255, sign-extended): ω7=WHAT, gas -10, nothing else. distinct_nontrivial = distinct contexts + distinct (id, table)",
+      rule="case = one generated accumulation/refinement context (caller + 0..3 accounts with storage, preimages, lookups - some only in the raw pool -, privileges, queues; guest memory of 4 RW pages + 1 RO page) driven through 1..40 host calls (all 28 identifiers incl. log, arguments biased to the edges of the mapped ranges, lengths {0, small, 2^32, random 64-bit}, own/other/absent/2^64-1 service ids and 64-bit values whose low half is an existing id); after EVERY call the frame table is evaluated on pre/post snapshots of registers, gas, every guest page, the logical projection of X and Y and the inner-machine table: "
+           "only ω7 (+ω8 for query/invoke, none for log) may change; gas -10 (transfer -10-l); unreadable required input => PANIC; PANIC or error code => memory and context unchanged; memory changes only inside the destination range; Y changes only at checkpoint; a service argument >= 2^32 (other than 2^64-1 = caller) names no service: lookup / read / info / historical_lookup answer NONE and write nothing, eject / provide / transfer answer WHO and change nothing; after every call the guest ranges it was given are scrambled and the context and inner machines must stay as they were (no retained views of guest memory). Plus `ecalli id` programs for identifiers absent from the real table (27..99, 101..255, >255, sign-extended): ω7=WHAT, gas -10, nothing else. distinct_nontrivial = distinct contexts + distinct (id, table)",
       technique="invariant monitor at the omega-table boundary (per-call frame table over pre/post snapshots)",
       level_text="Every call of generated host-call sequences is checked against its register/memory/context frame; held = no frame violation on what was explored.",
-      note=HC_NOTE, shards=(8, 16), floors={"any": {"calls": 50000, "unknown_ids": 2000}})
+      note=HC_NOTE, shards=(8, 16), floors={"any": {"calls": 50000, "unknown_ids": 2000, "calls_naming_a_service_outside_the_32_bit_range": 300, "alias_probes": 5000}})
 
 check("C08", "PVM",
       rule="the C07 sequence driver with the ledger monitor: after every call the exact (math/big) sum of all balances in X plus the amounts of X's deferred transfers must not increase; balances change only in successful new/transfer/eject, by exactly the specified amount (creator -a_t and new account +a_t with a_t = 100+10*2+81+l, sender -amount with the transfer recorded as requested, caller +ejected balance and the account removed); success requires the caller to stay at or above its own threshold, CASH requires that it would not; amounts/lengths drawn around the balance, 2^32 and 2^64. "
@@ -197,7 +197,7 @@ check("C33", "PVM",
                       "pages_ok_mode_0": 200, "pages_ok_mode_1": 200, "pages_ok_mode_2": 200, "pages_ok_mode_3": 100, "pages_ok_mode_4": 100}})
 
 check("C16", "internal/blockchain",
-      rule="case = one history of 3..42 steps over a key-value set with keys from shared-prefix families: add (1..12 entries, or capacity/2..3*capacity/2 entries in every 8th history), change values (one bit, across the 32-byte embedded/hashed boundary, one byte appended/dropped, fresh), restore an earlier value (A->B->A), remove, re-add a removed key with another value, explicit cache clear, recompute unchanged; "
+      rule="case = one history of 3..42 steps over a key-value set with keys from shared-prefix families: add (1..12 entries, or capacity/2..3*capacity/2 entries in every 8th history), change values (one bit, across the 32-byte embedded/hashed boundary, one byte appended/dropped, fresh), restore an earlier value (A->B->A), remove, re-add a removed key with another value, swap (some keys leave while as many earlier-removed keys return with the value they had: same entry count, every leaf still cached, another key set), return to the entry set of an earlier computation (fork / rollback), explicit cache clear, recompute unchanged; "
            "3 of 4 histories start on the cache left by earlier histories. After EVERY step ChainState.ComputeStateRootWithCache (input sorted or shuffled) is compared with MerklizationSerializedState from scratch and with the explicit insertion trie (reftrie); the input must not be modified (MaxKeyLevelCacheSize is read at run time: 600). "
            "Plus KeyLevelCache.GetOrComputeLeafHash on random (key, value) histories vs EncodeLeafNodeHash. distinct_nontrivial = distinct histories (by the sequence of model roots) + kcache cases",
       technique="differential monitor over histories (cached root vs from-scratch root vs independent trie model after every step), cache length observed in-package to witness evictions at capacity",
@@ -205,7 +205,7 @@ check("C16", "internal/blockchain",
       note="The harness is an in-package test (reads keyLevelCache.Len() to witness evictions); only evictions that shrink the cache are counted. Trusts reftrie (C15's model).",
       shards=(8, 16), env={"JAM_FUZZ": "1"},
       floors={"any": {"roots_compared": 20000, "steps_changing_values": 3000, "steps_restoring_an_earlier_value": 300, "explicit_clears": 1000, "computations_with_eviction_at_capacity": 20,
-                      "computations_all_hits": 1000, "computations_on_a_warm_cache": 15000, "kcache_lookups": 20000}},
+                      "computations_all_hits": 1000, "computations_on_a_warm_cache": 15000, "kcache_lookups": 20000, "steps_swapping_keys_at_equal_count": 500, "steps_returning_to_an_earlier_entry_set": 500}},
       assumptions=[STANDIN_VRF])
 
 check("C27", "internal/zzverif/c27",
